@@ -9,6 +9,7 @@
 (*                                                           KFlushSend     *)
 (*   FlushAck it is acknowledged                          -> FlushAck       *)
 (*   Data     the copy request is answered                -> CopyData       *)
+(*   CodeCopied the upload of a code object has completed (trace level)    *)
 (*   KLaunch  the LaunchKernelReq is sent                 -> KLaunch        *)
 (*   KDone    it is answered                              -> KDone          *)
 (*   OpDone   last command of the operation ends; a D2H carries the value  *)
@@ -22,8 +23,9 @@ EXTENDS QueueMem, TraceLib, Json
 
 TraceLog == ndJsonDeserialize("trace.ndjson")
 N == Len(TraceLog)
-VARIABLES l, orig, cx      \* cx: queue -> context of the run (from the Reset line)
-tvars == <<vars, l, orig, cx>>
+VARIABLES l, orig, cx,     \* cx: queue -> context of the run (from the Reset line)
+          resident        \* operations <<q, i>> whose code-object upload has completed
+tvars == <<vars, l, orig, cx, resident>>
 ASSUME HWInit
 
 Ev == TraceLog[l]
@@ -35,6 +37,7 @@ TInit ==
   /\ l = 1
   /\ orig = [q \in Queues |-> <<>>]
   /\ cx = [q \in Queues |-> 1]
+  /\ resident = {}
   /\ dram = [b \in Bufs |-> 100 + b] /\ expect = [b \in Bufs |-> 100 + b]
   /\ l2 = [b \in Bufs |-> Nil] /\ mark = [b \in Bufs |-> FALSE]
   /\ prog = [q \in Queues |-> <<>>]
@@ -50,6 +53,7 @@ TReset ==
   /\ prog' = [q \in Queues |-> SeqOf(Ev.progs[q])]
   /\ orig' = prog'
   /\ cx' = [q \in Queues |-> IF q <= Len(Ev.ctx) THEN Ev.ctx[q] ELSE 1]
+  /\ resident' = {}
   /\ \A q \in Queues : \A i \in 1..Len(prog'[q]) :
         LET o == prog'[q][i] IN
           IF o.k = "d2d" THEN {o.dst, o.src} \subseteq BufsOf[q] ELSE o.b \in BufsOf[q]
@@ -62,33 +66,41 @@ TReset ==
 
 Idx(q) == Len(orig[q]) - Len(prog[q]) + 1     \* 1-based index of the current / next operation of q
 
-TOpStart == Is("OpStart") /\ Ev.q \in Queues /\ Idx(Ev.q) = Ev.i /\ OpStart(Ev.q) /\ UNCHANGED <<orig, cx>>
+TOpStart == Is("OpStart") /\ Ev.q \in Queues /\ Idx(Ev.q) = Ev.i /\ OpStart(Ev.q) /\ UNCHANGED <<orig, cx, resident>>
 TFlush ==
   /\ Is("Flush") /\ Ev.q \in Queues /\ Ev.g \in GPUs /\ Idx(Ev.q) = Ev.i
   /\ (FlushSend(Ev.q, Ev.g) \/ KFlushSend(Ev.q, Ev.g))
-  /\ UNCHANGED <<orig, cx>>
-TFlushAck == Is("FlushAck") /\ Ev.q \in Queues /\ Ev.g \in GPUs /\ FlushAck(Ev.q, Ev.g) /\ UNCHANGED <<orig, cx>>
-TData == Is("Data") /\ Ev.q \in Queues /\ Idx(Ev.q) = Ev.i /\ CopyData(Ev.q) /\ UNCHANGED <<orig, cx>>
+  /\ UNCHANGED <<orig, cx, resident>>
+TFlushAck == Is("FlushAck") /\ Ev.q \in Queues /\ Ev.g \in GPUs /\ FlushAck(Ev.q, Ev.g) /\ UNCHANGED <<orig, cx, resident>>
+TData == Is("Data") /\ Ev.q \in Queues /\ Idx(Ev.q) = Ev.i /\ CopyData(Ev.q) /\ UNCHANGED <<orig, cx, resident>>
+\* the first staging command of a launch uploads the code object when the driver has no device copy for the process
+\* yet; a launch (of any queue) runs the code uploaded by operation <<cq, ci>> and must not be sent before that upload
+\* has completed
+TCodeCopied ==
+  /\ Is("CodeCopied") /\ Ev.q \in Queues /\ Idx(Ev.q) = Ev.i /\ stage[Ev.q] = "run" /\ Op(Ev.q).k = "d2d"
+  /\ resident' = resident \cup {<<Ev.q, Ev.i>>}
+  /\ UNCHANGED <<vars, orig, cx>>
 TKLaunch ==
   /\ Is("KLaunch") /\ Ev.q \in Queues /\ Idx(Ev.q) = Ev.i
+  /\ <<Ev.cq, Ev.ci>> \in resident
   /\ KLaunchC(Ev.q, UNION {BufsOf[p] : p \in {p \in Queues : cx[p] = cx[Ev.q]}})
-  /\ UNCHANGED <<orig, cx>>
-TKDone == Is("KDone") /\ Ev.q \in Queues /\ Idx(Ev.q) = Ev.i /\ KDone(Ev.q) /\ UNCHANGED <<orig, cx>>
+  /\ UNCHANGED <<orig, cx, resident>>
+TKDone == Is("KDone") /\ Ev.q \in Queues /\ Idx(Ev.q) = Ev.i /\ KDone(Ev.q) /\ UNCHANGED <<orig, cx, resident>>
 TOpDone ==
   /\ Is("OpDone") /\ Ev.q \in Queues /\ Idx(Ev.q) = Ev.i
   /\ stage[Ev.q] = "run" /\ (Op(Ev.q).k = "d2h" => cap[Ev.q] = Ev.obs)
   /\ OpDone(Ev.q)
-  /\ UNCHANGED <<orig, cx>>
+  /\ UNCHANGED <<orig, cx, resident>>
 \* end of a run: everything completed
-TEnd == Is("End") /\ (\A q \in Queues : prog[q] = <<>> /\ stage[q] = "idle") /\ UNCHANGED <<vars, orig, cx>>
+TEnd == Is("End") /\ (\A q \in Queues : prog[q] = <<>> /\ stage[q] = "idle") /\ UNCHANGED <<vars, orig, cx, resident>>
 
 TSilent ==
   /\ l <= N
   /\ \/ \E q \in Queues : KWrite(q)
      \/ \E b \in Bufs : Evict(b)
-  /\ UNCHANGED <<l, orig, cx>>
+  /\ UNCHANGED <<l, orig, cx, resident>>
 
-TNext == TReset \/ TOpStart \/ TFlush \/ TFlushAck \/ TData \/ TKLaunch \/ TKDone \/ TOpDone \/ TEnd \/ TSilent
+TNext == TReset \/ TCodeCopied \/ TOpStart \/ TFlush \/ TFlushAck \/ TData \/ TKLaunch \/ TKDone \/ TOpDone \/ TEnd \/ TSilent
 TSpec == TInit /\ [][TNext]_tvars
 
 \* layouts used by harness/cmd/c12mem: queue q owns buffers 2q-1 and 2q
